@@ -95,6 +95,14 @@ pub fn build_kernel(plan: &Plan) -> Kernel {
         p.disp[SIGPIPE as usize] = plan.parent.sigpipe;
     }
     k.par_mask[0] = plan.parent.sigmask;
+    for fd in 0..3 {
+        if plan.parent.closed_std & (1 << fd) != 0 {
+            let _ = k.k_close(PARENT_PID, fd);
+        }
+    }
+    if plan.parent.files_low {
+        k.harness_fd_min = 0;
+    }
     k
 }
 
